@@ -42,6 +42,7 @@ SRV_CERTS = {
     "midwild":    dict(file="srv-midwild",    issuer="A", when="now", dns={"www.*.example.test"}, ip=set(), cn="vf-c07 midwild"),
     "iponly":     dict(file="srv-iponly",     issuer="A", when="now", dns=set(),                  ip={"127.0.0.1"}, cn="vf-c07 iponly"),
     "cnonly":     dict(file="srv-cnonly",     issuer="A", when="now", dns=set(),                  ip=set(), cn="api.example.test"),
+    "third":      dict(file="srv-third",      issuer="C", when="now", dns={"localhost"}, ip={"127.0.0.1"}),   # issued by a root nobody configures
 }
 BASE_CERTS = ("valid", "dnsonly", "wrongname", "expired", "notyet", "selfsigned", "wrongca", "forged")   # chain/validity family
 CLI_CERTS = {
@@ -52,6 +53,7 @@ CLI_CERTS = {
     "expired":    dict(file="cli-expired",    issuer="A",        when="past"),
     "notyet":     dict(file="cli-notyet",     issuer="A",        when="future"),
     "forged":     dict(file="cli-forged",     issuer="forged-A", when="now"),
+    "third":      dict(file="cli-third",      issuer="C",        when="now"),
 }
 # trust setting -> (caFile, caPath, default store) given to iora, and the anchors that *configures*
 TRUST = {
@@ -71,10 +73,18 @@ TARGET_HOST = {"ip": "127.0.0.1", "name": "localhost", "othername": "evil.exampl
                "ex-parent": "example.test", "ex-other": "api.other.test", "ex-abc": "abc.example.test",
                "ex-www-foo": "www.foo.example.test", "ex-sub-api": "sub.api.example.test"}
 ISSUER_TAG = {"self": "self-signed", "forged-A": "forged-issuer"}
+# shape of iora's OWN certificate file (certFile / clientCertFile): which certificates the PEM file holds, in order.
+# The file says who iora IS; it must never add to whom iora TRUSTS (only caFile/caPath configure anchors).
+#   leaf            the leaf only
+#   fullchain       leaf + the root that issued it (A)
+#   leaf+unrelated  leaf + an unrelated root (C)
+#   ca-first        the issuing root first, then the leaf (the first certificate does not match the key)
+SHAPE_FILE = {"leaf": "%s", "fullchain": "%s+ca-right", "leaf+unrelated": "%s+ca-third", "ca-first": "ca-right+%s"}
+SHAPE_EXTRA_CA = {"leaf": None, "fullchain": "A", "leaf+unrelated": "C", "ca-first": "A"}
 
 DEFAULTS = dict(peer="openssl", garbage=0, verify="off", trust="none", icert=None, imin=0, tlscfg="enabled",
                 pcert=None, pauth="none", pverify="off", pmax=13, target="ip", api="async", send="late", lvl0=0,
-                life="fresh", seq="single", speer="-", verify1="-", trust1="-")
+                life="fresh", seq="single", speer="-", verify1="-", trust1="-", ishape="leaf")
 
 
 def mk(entry, **kw):
@@ -205,6 +215,8 @@ def expect(c):
                 eithers.append("own-server-cert-" + c["icert"])
         if c["imin"] == 13 and c["pmax"] == 12:
             eithers.append("configured-min-above-peer-max")
+    if c["ishape"] == "ca-first":
+        eithers.append("own-cert-file-starts-with-the-ca")     # first certificate does not match the key: iora should refuse to start
     if c["life"] == "retry-missing":
         # iora's own certificate/key files are missing at the first start() AND at the retry: the
         # transport should keep refusing to start; whatever it does, every must-reject reason above
@@ -407,6 +419,24 @@ def matrix():
                 add(mk(E, tlscfg=tlscfg, peer=peer, verify="off", send=send))
         add(mk(E, tlscfg=tlscfg, peer="plaintext", verify="on", trust="ca-right", pcert="none", send="early"))
 
+    # shape of iora's own certificate FILE x issuer of the certificate the peer presents: a bundle must not add
+    # trust anchors. Servers that require client certificates, configured client CA = B (the server's own certificate
+    # is issued by A) and = A; symmetric on the client side (caFile = B, own client certificate bundle from A).
+    for E in SERVER_ENTRIES:
+        for ishape in ("leaf", "fullchain", "leaf+unrelated", "ca-first"):
+            for pcert in ("untrusted", "trusted", "third", "selfsigned", "none"):
+                add(mk(E, verify="on", trust="ca-wrong", ishape=ishape, pcert=pcert, send=sends[k % 2])); k += 1
+        for ishape in ("fullchain", "leaf+unrelated"):
+            for pcert in ("trusted", "untrusted", "third"):
+                add(mk(E, verify="on", trust="ca-right", ishape=ishape, pcert=pcert, send=sends[k % 2])); k += 1
+    for E in CLIENT_ENTRIES:
+        for ishape in ("leaf", "fullchain", "leaf+unrelated", "ca-first"):
+            for pcert in ("wrongca", "valid", "third", "selfsigned"):
+                kw = dict(api=apis[k % 3][0], send=apis[k % 3][1]) if E == "transport-client" else {}
+                k += 1
+                add(mk(E, verify="on", trust="ca-wrong", icert="trusted", ishape=ishape, pauth="request", pcert=pcert, target="name", **kw))
+    E = "transport-server"
+
     # lifecycle on the server side: the server certificate/key files are missing at the first start()
     E = "transport-server"
     for life in ("retry-provisioned", "retry-missing", "restart"):
@@ -496,7 +526,7 @@ def harness_line(c, cid):
         if ic == "mismatch":
             f.update(icertf="cli-trusted", ikeyf="other")
         elif ic != "none":
-            f.update(icertf=CLI_CERTS[ic]["file"], ikeyf=CLI_CERTS[ic]["file"])
+            f.update(icertf=SHAPE_FILE[c["ishape"]] % CLI_CERTS[ic]["file"], ikeyf=CLI_CERTS[ic]["file"])
         pc = SRV_CERTS[c["pcert"]]["file"]
         f.update(pcertf=pc, pkeyf=pc, pauth=c["pauth"], pca="ca-right")
     else:
@@ -504,7 +534,7 @@ def harness_line(c, cid):
         if ic == "mismatch":
             f.update(icertf="srv-valid", ikeyf="other")
         else:
-            f.update(icertf=SRV_CERTS[ic]["file"], ikeyf=SRV_CERTS[ic]["file"])
+            f.update(icertf=SHAPE_FILE[c["ishape"]] % SRV_CERTS[ic]["file"], ikeyf=SRV_CERTS[ic]["file"])
         if c["pcert"] != "none":
             f.update(pcertf=CLI_CERTS[c["pcert"]]["file"], pkeyf=CLI_CERTS[c["pcert"]]["file"])
         f.update(pverify=c["pverify"], pca="ca-right", pverifyhost="localhost" if c["pverify"] == "on" else "-")
@@ -611,6 +641,8 @@ def judge(c, o):
     p, r = o.get("peer", {}), o.get("relay", {})
     client = e in CLIENT_ENTRIES
     el = e if c["life"] == "fresh" else "%s:life-%s" % (e, c["life"])     # entry label used in keys
+    if c["ishape"] != "leaf":
+        el += ":certfile-" + c["ishape"]
 
     # ---- universal clause 1: no application byte in clear, whatever the configuration
     iora_dir = "c2s" if client else "s2c"
@@ -683,6 +715,11 @@ def judge(c, o):
     if r.get("conns", 0) > 0: cnt.append("relay_connections")
     if c["send"] == "early": cnt.append("early_send_cells")
     if c["tlscfg"] != "enabled": cnt.append("tls_requested_not_configured_cells")
+    if c["ishape"] != "leaf":
+        cnt.append("certfile_shape_cells[%s]" % c["ishape"])
+        peer_issuer = (SRV_CERTS[c["pcert"]] if client else (CLI_CERTS[c["pcert"]] or {})).get("issuer")
+        if peer_issuer == SHAPE_EXTRA_CA[c["ishape"]] and verdict == "reject" and not adm:
+            cnt.append("certfile_bundle_ca_not_trusted")      # the dangerous pairing was run and refused
     if c["life"] != "fresh":
         cnt.append("lifecycle_cells[%s]" % c["life"])
         if c["life"].startswith("retry-"):
@@ -746,12 +783,12 @@ def _coords(c):
 def signature(c, verdict, reasons, eithers, adm):
     return "|".join([c["entry"], verdict, "+".join(reasons) or "+".join(eithers) or accept_class(c), c["peer"],
                      str(c["garbage"]) if c["peer"] == "garbage" else "", c["api"], c["send"], c["life"],
-                     c["seq"] + "/" + c["speer"] + "/" + c["verify1"], "adm" if adm else "ref"])
+                     c["seq"] + "/" + c["speer"] + "/" + c["verify1"], c["ishape"], "adm" if adm else "ref"])
 
 
 # ------------------------------------------------------------------------ quick covering subset
 COORDS = ("peer", "garbage", "verify", "trust", "icert", "imin", "tlscfg", "pcert", "pauth", "pverify", "pmax", "target", "api", "send", "life",
-          "seq", "speer", "verify1", "trust1")
+          "seq", "speer", "verify1", "trust1", "ishape")
 
 
 def covering_subset(cells, rng, target):
@@ -773,11 +810,17 @@ def covering_subset(cells, rng, target):
             if reasons == ["floor"] and c["imin"] * 1 <= c["pmax"] and c["imin"] < 12:
                 f.add((c["entry"], "floor-by-clamp-only", c["pmax"]))
             # every non-fresh lifecycle meets an authentication reject class, a floor cell and a hostile peer
+            if c["ishape"] != "leaf":
+                cl = c["entry"] in CLIENT_ENTRIES
+                pi = (SRV_CERTS[c["pcert"]] if cl else (CLI_CERTS[c["pcert"]] or {})).get("issuer")
+                f.add((c["entry"], "certfile-reject", c["ishape"], "peer-issuer-in-own-bundle" if pi == SHAPE_EXTRA_CA[c["ishape"]] else "other"))
             if c["life"] != "fresh":
                 kind = "floor" if reasons == ["floor"] else ("peer" if c["peer"] != "openssl" else "auth")
                 f.add((c["entry"], "life-reject", c["life"], kind))
         if v == "accept" and c["life"] != "fresh":
             f.add((c["entry"], "life-accept", c["life"]))
+        if v == "accept" and c["ishape"] != "leaf":
+            f.add((c["entry"], "certfile-accept", c["ishape"]))
         elif v == "accept":
             f.add((c["entry"], "accept", c["verify"], c["trust"] if c["verify"] == "on" else ""))
         else:
@@ -1014,7 +1057,9 @@ def run(ctx):
                     "lifecycle_first_start_failed_at_cert_load", "lifecycle_retry_started_after_provisioning",
                     "lifecycle_retry_kept_failing", "lifecycle_restart_started_twice",
                     "seq_cells[http-then-https]", "seq_cells[https-then-http]", "seq_cells[settls-tighten]",
-                    "seq_cells[settls-loosen]", "seq_https_request_seen_over_tls")
+                    "seq_cells[settls-loosen]", "seq_https_request_seen_over_tls",
+                    "certfile_shape_cells[fullchain]", "certfile_shape_cells[leaf+unrelated]", "certfile_shape_cells[ca-first]",
+                    "certfile_bundle_ca_not_trusted")
 
 
 def replay(ctx, path):
